@@ -500,7 +500,7 @@ def peer_case(ctx: Any, rows: int, md: dict[bytes, bytes] | None, tag: str, mod:
     ctx.case(case, nontrivial=is_log, tags=("part:b", tag, f"outcome:{got['k']}"))
     # O: never fails the call; an RpcError only when the peer said EXCEPTION
     if got["k"] == "crash":
-        ctx.fail(case, f"C08:peer-batch-crashes:{got['exc']}:{classify_md(md)}", f"_dispatch_log_or_error raised {got['exc']} for peer metadata {json.dumps(show_md(md))[:300]}")
+        ctx.fail(case, f"C08:peer-batch-crashes:{got['exc']}:{classify_md(md, got['exc'])}", f"_dispatch_log_or_error raised {got['exc']} for peer metadata {json.dumps(show_md(md))[:300]}")
     elif got["k"] == "rpc" and not (md is not None and md.get(L_, b"").decode("utf-8", "replace") == "EXCEPTION"):
         ctx.fail(case, "C08:log-batch-raised-rpc-error", f"a non-EXCEPTION batch was raised as RpcError: {json.dumps(show_md(md))[:300]}")
     elif got["k"] in ("delivered", "ignored") and not is_log:
@@ -516,8 +516,8 @@ def _short(d: dict[str, Any]) -> dict[str, Any]:
     return {k: (v if not isinstance(v, str) or len(v) < 200 else {"len": len(v), "head": v[:30]}) for k, v in d.items()}
 
 
-def classify_md(md: dict[bytes, bytes] | None) -> str:
-    """canonical class of a hostile batch, for finding keys"""
+def classify_md(md: dict[bytes, bytes] | None, exc: str | None = None) -> str:
+    """canonical class of a hostile batch, for finding keys (guided by the exception that escaped, when known)"""
     if md is None:
         return "no-metadata"
 
@@ -530,26 +530,38 @@ def classify_md(md: dict[bytes, bytes] | None) -> str:
         except UnicodeDecodeError:
             return True
 
-    for key, name in ((L_, "level"), (M_, "message"), (S_, "server-id"), (R_, "request-id"), (X_, "extra")):
-        if bad(md.get(key)):
-            return f"non-utf8-{name}"
-    x = md.get(X_)
-    if x is not None:
+    def non_utf8() -> str | None:
+        for key, name in ((L_, "level"), (M_, "message"), (X_, "extra"), (R_, "request-id"), (S_, "server-id")):
+            if bad(md.get(key)):
+                return f"non-utf8-{name}"
+        return None
+
+    def extra_class() -> str | None:
+        x = md.get(X_)
+        if x is None:
+            return None
         try:
-            p = json.loads(x.decode())
+            p = json.loads(x.decode("utf-8", "replace"))
         except json.JSONDecodeError:
-            p = "<invalid>"
+            return None
         except ValueError:
             return "extra-huge-int"
         except RecursionError:
             return "extra-too-deep"
-        if not isinstance(p, dict) and p != "<invalid>":
+        if not isinstance(p, dict):
             return f"extra-not-object:{type(p).__name__}"
-        if isinstance(p, dict) and any(k in p for k in ("level", "message", "self")):
+        if any(k in p for k in ("level", "message", "self")):
             return "extra-key-collides-with-Message-arg"
+        return None
+
     lv = md.get(L_, b"").decode("utf-8", "replace")
-    if lv not in ("EXCEPTION", "ERROR", "WARN", "INFO", "DEBUG", "TRACE"):
-        return "unknown-level"
+    unknown = None if lv in ("EXCEPTION", "ERROR", "WARN", "INFO", "DEBUG", "TRACE") else "unknown-level"
+    order = {"UnicodeDecodeError": [non_utf8, extra_class], "TypeError": [extra_class, non_utf8], "AttributeError": [extra_class, non_utf8],
+             "RecursionError": [extra_class], "ValueError": [extra_class, lambda: unknown]}.get(exc or "", [non_utf8, extra_class, lambda: unknown])
+    for f in order + [non_utf8, extra_class, lambda: unknown]:
+        c = f()
+        if c is not None:
+            return c
     return "other"
 
 
@@ -647,7 +659,7 @@ def _judge_client(ctx: Any, case: dict[str, Any], mds: list[dict[bytes, bytes]],
         ctx.fail(case, f"C08:hung:{via}-client", "client did not return")
         return
     if "exc" in res:
-        cls = next((classify_md(m) for m in mds if impl_dispatch(0, m)["k"] == "crash"), "unclassified")
+        cls = next((classify_md(m, res["exc"]) for m in mds if impl_dispatch(0, m)["k"] == "crash"), "unclassified")
         ctx.fail(case, f"C08:peer-batch-crashes:{res['exc']}:{cls}", f"{via}: the call failed with {res['exc']}: {res.get('msg')}")
         return
     if "rpc" in res:
